@@ -1022,10 +1022,10 @@ def run(replay=None):
     # ---- 1. TLC: scenarios + lemmas (two families side by side)
     t0 = time.time()
     with ThreadPoolExecutor(4) as ex:
-        w = max(1, C.NCPU // 3)
+        w = max(1, C.NCPU // 4)
         f1 = ex.submit(run_family, os.path.join(wd, "tlc_types"), "types", b, backends, w)
         f2 = ex.submit(run_family, os.path.join(wd, "tlc_select"), "select", b, backends, w)
-        f3 = ex.submit(run_family, os.path.join(wd, "tlc_history"), "history", b, backends, w)
+        f3 = ex.submit(run_family, os.path.join(wd, "tlc_history"), "history", b, backends, max(2, C.NCPU // 2))   # the largest model
         f4 = ex.submit(run_family, os.path.join(wd, "tlc_chain"), "chain", b, backends, 1)
         r1, r2, r3, r4 = f1.result(), f2.result(), f3.result(), f4.result()
     pools = [r for r in r1.records if "pools" in r]
